@@ -797,6 +797,25 @@ class Rewriter:
                 return k
         raise ExtractError("no block after position %d" % start)
 
+    @staticmethod
+    def _loop_block_open(m, a):
+        """The `{` of a loop's body. For `while let PATTERN = expr {` the pattern may contain braces
+        (a struct pattern): the body's brace is the first one at depth 0 after the `=`."""
+        if re.match(r"while\s+let\b", m[a:]):
+            depth = 0
+            k = a
+            while k < len(m):
+                ch = m[k]
+                if ch in "([{":
+                    depth += 1
+                elif ch in ")]}":
+                    depth -= 1
+                elif ch == "=" and depth == 0 and m[k + 1] not in "=>" and m[k - 1] not in "=!<>":
+                    return Rewriter._block_open(m, k + 1)
+                k += 1
+            raise ExtractError("no `=` in while-let head at position %d" % a)
+        return Rewriter._block_open(m, a + 3)
+
     # R3 / R6 -------------------------------------------------------------
     def splice_fn(self, ret_name, spec, loops, before, after_open=None, loop_open=None, at_end=None, tail_proof=None):
         """Name the result, insert requires/ensures after the signature, loop
@@ -842,18 +861,25 @@ class Rewriter:
                 if k < 1 or k > len(kws):
                     raise ExtractError("%s: loop#%d not found (%d loops)" % (self.label, k, len(kws)))
                 a = kws[k - 1]
-                lb = self._block_open(m, a + 3)
+                lb = self._loop_block_open(m, a)
                 inserts.append((lb, lb, "\n" + inv.rstrip() + "\n"))
                 self.hit("R6-loop")
             for k, txt in (loop_open or {}).items():
                 if k < 1 or k > len(kws):
                     raise ExtractError("%s: loop#%d not found (%d loops)" % (self.label, k, len(kws)))
-                lb = self._block_open(m, kws[k - 1] + 3)
+                lb = self._loop_block_open(m, kws[k - 1])
                 inserts.append((lb + 1, lb + 1, "\n" + txt.rstrip() + "\n"))
                 self.hit("R6-proof")
         for item in before or []:
             lit, txt = item[0], item[1]
             occ = item[2] if len(item) > 2 else None
+            if isinstance(lit, (tuple, list)):
+                # alternative anchors for a hint (the statements of one straight-line stretch): the first
+                # one that is present is used, so that a change to one of them does not lose the hint
+                found = [a for a in lit if re.search(re.escape(a), self.text[ob:])]
+                if found and found[0] != lit[0]:
+                    self.hit("R6-anchor-fallback")
+                lit = found[0] if found else lit[0]
             idxs = [mm.start() for mm in re.finditer(re.escape(lit), self.text[ob:])]
             if occ is None:
                 if len(idxs) != 1:
